@@ -22,7 +22,7 @@ void hx_script_add(hx_script *s, int k, const void *d, uint32_t n) {
 }
 static const char *op_name(int k) {
     switch (k) { case OP_Q: return "Q"; case OP_S: return "S"; case OP_QG: return "QG"; case OP_SG: return "SG"; case OP_CLOSE: return "CLOSE";
-        case OP_QCLOSE: return "QCLOSE"; case OP_DESTROY: return "DESTROY"; case OP_FREED: return "FREED"; case OP_CLOCK: return "CLOCK"; case OP_EPOCH: return "EPOCH"; }
+        case OP_QCLOSE: return "QCLOSE"; case OP_DESTROY: return "DESTROY"; case OP_FREED: return "FREED"; case OP_CLOCK: return "CLOCK"; case OP_EPOCH: return "EPOCH"; case OP_USEC: return "USEC"; }
     return "?";
 }
 void hx_script_print(hx_buf *b, const hx_script *s) {
@@ -86,6 +86,7 @@ int hx_script_parse(hx_script *s, const char *text, hx_buf *st) {
         else if (!strcmp(w, "DESTROY")) hx_script_add(s, OP_DESTROY, NULL, (uint32_t) atoi(arg));
         else if (!strcmp(w, "CLOCK")) hx_script_add(s, OP_CLOCK, NULL, (uint32_t) strtoul(arg, NULL, 10));
         else if (!strcmp(w, "EPOCH")) hx_script_add(s, OP_EPOCH, NULL, (uint32_t) strtoul(arg, NULL, 10));
+        else if (!strcmp(w, "USEC")) hx_script_add(s, OP_USEC, NULL, (uint32_t) strtoul(arg, NULL, 10));
         p = *e ? e + 1 : e;
     }
     return 0;
